@@ -145,6 +145,7 @@ type vTransport struct {
 	shut     int
 	writeErr bool
 	dialErr  bool
+	dialHang bool
 	conn     net.Conn
 	dials    int
 	packetCh chan *Packet
@@ -184,6 +185,11 @@ func (t *vTransport) DialTimeout(addr string, timeout time.Duration) (net.Conn, 
 }
 func (t *vTransport) DialAddressTimeout(a Address, timeout time.Duration) (net.Conn, error) {
 	t.dials++
+	if t.dialHang {
+		// a host that never answers the connection attempt: the dial gives up when its own timeout expires
+		time.Sleep(timeout)
+		return nil, vTimeoutErr{}
+	}
 	if t.dialErr || t.conn == nil {
 		return nil, vErr{}
 	}
